@@ -491,10 +491,11 @@ def Op.singleStep : Op → Prop
 instance : (o : Op) → Decidable o.singleStep := fun o => by
   cases o <;> unfold Op.singleStep <;> infer_instance
 
-/-- a durable put of a vector-free value under a key of the plain / graph / table class
-    (two steps: log under the mutex, apply after it) -/
-def Op.simpleDurablePut : Op → Bool
+/-- a durable write under a key of the plain / graph / table class: `put_durable` of a vector-free
+    value, or `delete_durable` (two steps: log, then apply, both under the log mutex) -/
+def Op.simpleDurable : Op → Bool
   | .putD k v => decide (k.cls ≠ .cache ∧ k.cls ≠ .emb ∧ v.vec = .none)
+  | .delD k => decide (k.cls ≠ .cache ∧ k.cls ≠ .emb)
   | _ => false
 
 /-- put / get / delete / exists / scan (no `put_durable` / `delete_durable`) -/
